@@ -9,8 +9,12 @@ impl Format for &ParolLs {
     fn format(&self, options: &FormattingOptions, comments: Comments) -> Vec<TextEdit> {
         let range = Rng::new(Range::default()).extend_to_end().0;
         let fmt_options = options.into();
-        let (new_text, comments) = self.txt(&fmt_options, comments);
-        debug_assert!(comments.is_empty());
+        let (mut new_text, comments) = self.txt(&fmt_options, comments);
+        // Comments that no grammar item has picked up, e.g. those behind the last production,
+        // are kept at the end of the text instead of being dropped.
+        if !comments.is_empty() {
+            new_text.push_str(&comments.handle_comments(&fmt_options));
+        }
         vec![TextEdit { range, new_text }]
     }
 }
